@@ -17,6 +17,7 @@ import (
 	"sync"
 	"sync/atomic"
 	"testing"
+	"time"
 	"unicode"
 	"unicode/utf8"
 
@@ -189,7 +190,10 @@ func chunk(dir string, idx int, vals [][]byte, fail func(kind string, v []byte, 
 			}
 		}
 		// a second store started from the cache alone
-		st2, err := setec.NewStore(ctx, setec.StoreConfig{Client: deadClient{}, Secrets: append([]string(nil), names...), Cache: fc, PollInterval: -1, Logf: func(string, ...any) {}})
+		// (bounded: a store that does not accept its own cache would otherwise retry the dead service for ever)
+		ctx2, cancel2 := context.WithTimeout(ctx, 3*time.Second)
+		st2, err := setec.NewStore(ctx2, setec.StoreConfig{Client: deadClient{}, Secrets: append([]string(nil), names...), Cache: fc, PollInterval: -1, Logf: func(string, ...any) {}})
+		cancel2()
 		if err != nil {
 			fail("store-from-cache", nil, err.Error())
 		} else {
@@ -291,6 +295,7 @@ func cliReference(in []byte, verbatim, trim, emptyOK bool) (vals [][]byte, refus
 func TestCheck(t *testing.T) {
 	env := report.FromEnv()
 	rep := env.New("C18")
+	defer rep.Guard(env)
 	rep.Assumptions = []string{
 		"byte strings are exhaustive over {00,0A,20,61,80,FF,22,5C} up to the length bound plus a fixed boundary family (64 KiB-1, 64 KiB, 1 MiB of zeros / 0xFF / a counter); megabyte sizes are not covered exhaustively",
 		"the CLI's terminal-prompt input path needs a pty and is not driven; file and pipe sources are",
